@@ -10,6 +10,7 @@
    Operations of a history:
      Lij k | Mutate call i v (caller overwrites the i-th array returned by the call-th Lij) |
      Clearcache | Reconfig c (generate(N) / GFcalculator(NGFmax): clears the cache iff c differs) |
+   and for every cached slot whether a miss stores a newly allocated array or the callee's single reused buffer;
      SaveLoad (HDF5 round trip: cached arrays are re-read into new cells; the caller's arrays stay) *)
 From Coq Require Import List Arith Bool Lia.
 Import ListNotations.
@@ -26,12 +27,16 @@ Variable cfgeqb : cfg -> cfg -> bool.
 Variable comp_cache : cfg -> ckey -> list V.
 Variable comp_result : cfg -> key -> list V -> list V.
 Variable rmode : list mode.          (* one mode per returned array *)
+Variable smode : list bool.          (* one flag per cached slot: true = the callee (GF calculator) hands out ONE
+                                        reused buffer, so the cache entries of all keys are the same cell *)
 
-Record state := mkSt { heap : list V; cache : list (ckey * list nat); conf : cfg; held : list (list nat) }.
+(* bufs: the callee's reused buffer of each slot, once it exists *)
+Record state := mkSt { heap : list V; cache : list (ckey * list nat); conf : cfg; held : list (list nat);
+                       bufs : list (option nat) }.
 
 Inductive op := Lij (k : key) | Mutate (call i : nat) (v : V) | Clearcache | Reconfig (c : cfg) | SaveLoad.
 
-Definition init (c : cfg) : state := mkSt [] [] c [].
+Definition init (c : cfg) : state := mkSt [] [] c [] [].
 
 Definition read (h : list V) (cells : list nat) : list V := map (fun c => nth c h dV) cells.
 
@@ -47,6 +52,20 @@ Fixpoint lookup (c : ckey) (l : list (ckey * list nat)) : option (list nat) :=
 (* new cells at the end of the heap *)
 Definition alloc (h : list V) (vs : list V) : list V * list nat := (h ++ vs, seq (length h) (length vs)).
 
+(* the cells in which a miss stores the freshly computed arrays: a new cell, or the callee's reused buffer
+   (overwritten in place) *)
+Fixpoint store (sm : list bool) (bf : list (option nat)) (vs : list V) (h : list V)
+  : list V * list nat * list (option nat) :=
+  match vs with
+  | [] => (h, [], [])
+  | v :: vs' =>
+    match hd false sm, hd None bf with
+    | true, Some c => let '(h', cells, b') := store (tl sm) (tl bf) vs' (upd h c v) in (h', c :: cells, Some c :: b')
+    | true, None => let '(h', cells, b') := store (tl sm) (tl bf) vs' (h ++ [v]) in (h', length h :: cells, Some (length h) :: b')
+    | false, b => let '(h', cells, b') := store (tl sm) (tl bf) vs' (h ++ [v]) in (h', length h :: cells, b :: b')
+    end
+  end.
+
 (* the references handed to the caller for result `res` computed from cached cells `cells` *)
 Fixpoint build (rm : list mode) (i : nat) (res : list V) (cells : list nat) (h : list V) : list V * list nat :=
   match rm with
@@ -57,14 +76,15 @@ Fixpoint build (rm : list mode) (i : nat) (res : list V) (cells : list nat) (h :
 
 Definition step_lij (s : state) (k : key) : state * list V :=
   let c := ck k in
-  let '(h1, cache1, cells) :=
+  let '(h1, cache1, cells, bufs1) :=
     match lookup c (cache s) with
-    | Some cells => (heap s, cache s, cells)
-    | None => let '(h', cells) := alloc (heap s) (comp_cache (conf s) c) in (h', (c, cells) :: cache s, cells)
+    | Some cells => (heap s, cache s, cells, bufs s)
+    | None => let '(h', cells, b') := store smode (bufs s) (comp_cache (conf s) c) (heap s) in
+              (h', (c, cells) :: cache s, cells, b')
     end in
   let res := comp_result (conf s) k (read h1 cells) in
   let '(h2, refs) := build rmode 0 res cells h1 in
-  (mkSt h2 cache1 (conf s) (held s ++ [refs]), read h2 refs).
+  (mkSt h2 cache1 (conf s) (held s ++ [refs]) bufs1, read h2 refs).
 
 (* HDF5 round trip: every cached array is written and read back into a new cell *)
 Fixpoint reload (h : list V) (l : list (ckey * list nat)) : list V * list (ckey * list nat) :=
@@ -81,11 +101,11 @@ Definition step (s : state) (o : op) : state * option (cfg * key * list V) :=
   | Mutate call i v =>
     let refs := nth call (held s) [] in
     if Nat.ltb i (length refs)
-    then (mkSt (upd (heap s) (nth i refs 0) v) (cache s) (conf s) (held s), None)
+    then (mkSt (upd (heap s) (nth i refs 0) v) (cache s) (conf s) (held s) (bufs s), None)
     else (s, None)
-  | Clearcache => (mkSt (heap s) [] (conf s) (held s), None)
-  | Reconfig c => if cfgeqb c (conf s) then (s, None) else (mkSt (heap s) [] c (held s), None)
-  | SaveLoad => let '(h', c') := reload (heap s) (cache s) in (mkSt h' c' (conf s) (held s), None)
+  | Clearcache => (mkSt (heap s) [] (conf s) (held s) (bufs s), None)
+  | Reconfig c => if cfgeqb c (conf s) then (s, None) else (mkSt (heap s) [] c (held s) (bufs s), None)
+  | SaveLoad => let '(h', c') := reload (heap s) (cache s) in (mkSt h' c' (conf s) (held s) [], None)   (* a loaded GF calculator has no buffer yet *)
   end.
 
 (* the observations (configuration, input, returned values) of all Lij calls of a history *)
@@ -102,9 +122,10 @@ Definition pure (c : cfg) (k : key) : list V :=
   map (fun j => nth j (comp_result c k (comp_cache c (ck k))) dV) (seq 0 (length rmode)).
 
 Definition all_fresh : bool := forallb (fun m => match m with Fresh => true | Alias _ => false end) rmode.
+Definition stores_fresh : bool := forallb negb smode.
 
 End Cache.
 
-Arguments mkSt {V ckey cfg} _ _ _ _.
+Arguments mkSt {V ckey cfg} _ _ _ _ _.
 Arguments Lij {V key cfg} _. Arguments Mutate {V key cfg} _ _ _. Arguments Clearcache {V key cfg}.
 Arguments Reconfig {V key cfg} _. Arguments SaveLoad {V key cfg}.
